@@ -14,3 +14,64 @@ class C13R(Monitor):
             osm = type(net).__name__ == "OSMRoadNetwork"
             ctx.count("c13_run_routes")
             check_route(net, ev["o"], ev["d"], ev["route"], lambda mech, msg, **w: ctx.violate("C13", mech, msg, **w), ctx.count, osm)
+
+
+class C14R(Monitor):
+    """C14 in-run part: every route handed to a vehicle during a scenario run (standing or under way, first instruction or
+    re-instruction) is judged against an independent Dijkstra over the link table's travel times."""
+
+    prop = "C14"
+    hooks = ("route",)
+
+    def start(self, ctx):
+        self.adj = None
+        self.cache = {}
+
+    def _adj(self, net, ctx):
+        if self.adj is None:
+            from hivemon.checks.c14 import adjacency
+
+            kind = (ctx.spec.get("network") or {}).get("type") if isinstance(ctx.spec, dict) else None
+            if kind == "grid":
+                adj = {}
+                for l in net.link_helper.links.values():
+                    a, b = (int(x) for x in l.link_id.split("-"))
+                    adj.setdefault(a, {})[b] = l.distance_km / l.speed_kmph * 3600.0
+                self.adj = adj
+            else:
+                self.adj = adjacency(net.graph)
+        return self.adj
+
+    def on_step(self, ctx):
+        from hivemon.checks.c14 import dijkstra_all
+
+        for ev in ctx.H.get("route", []):
+            net = ev["net"]
+            if type(net).__name__ != "OSMRoadNetwork":
+                continue
+            r = ev["route"]
+            if len(r) < 2 or ev["o"].link_id == ev["d"].link_id:
+                continue
+            try:
+                u = int(ev["o"].link_id.split("-")[1])
+                v = int(ev["d"].link_id.split("-")[0])
+                adj = self._adj(net, ctx)
+                inner = r[1:-1]
+                hops = [(int(l.link_id.split("-")[0]), int(l.link_id.split("-")[1])) for l in inner]
+                cost = sum(adj[a][b] for a, b in hops)
+            except (KeyError, ValueError, IndexError):
+                continue  # malformed routes are C13's business
+            if hops and (hops[0][0] != u or hops[-1][1] != v):
+                continue
+            if not hops and u != v:
+                continue
+            if u not in self.cache:
+                self.cache[u] = dijkstra_all(adj, u)
+            opt = self.cache[u].get(v)
+            if opt is None:
+                continue
+            ctx.count("c14_run_routes")
+            if len(hops) > 1:
+                ctx.count("c14_run_multi_link_routes")
+            if cost > opt + 1e-6:
+                ctx.violate("C14", "route-slower-than-optimum", f"route handed out in step {ctx.k} from link {ev['o'].link_id} to link {ev['d'].link_id}: inner part takes {cost:.3f}s, the fastest path {u}->{v} takes {opt:.3f}s", excess_s=cost - opt, links=[l.link_id for l in inner][:12])
